@@ -562,3 +562,52 @@ package kcache
   loop 1 inv [each-visited-subscription-got-it-once] (forall ((x V)) (= (select cnt x) (ite (select $visited x) 1 0)))
   exit [every-subscription-gets-the-event-exactly-once] (forall ((x V)) (= (select cnt x) (ite (select {dom(s.subscriptions)} x) 1 0)))
 @*/
+
+/*@ iface kcache.Handler.OnInitialize
+@*/
+/*@ iface kcache.Handler.OnCreate
+@*/
+/*@ iface kcache.Handler.OnUpdate
+@*/
+/*@ iface kcache.Handler.OnDelete
+@*/
+
+/*@ func (*kcache.monitor).run
+  props C16 C11 C12
+  theory lists
+  requires [valid-m] (and (not (= {m} vnil)) (not (= {m.sub} vnil)) (not (= {m.handler} vnil)) (not (= {m.lc} vnil)))
+  ghost lc : Int := 0
+  ghost ninit : Int := 0
+  ghost ncb : Int := 0
+  ghost readySeen : Bool := false
+  ghost lastList : (Slice V) := seq-empty
+  ghost listOK : Bool := false
+  ghost lastEv : V := vnil
+  ghost evPending : Bool := false
+  at recv(Ready) set readySeen := true
+  at call(List) assert [content-read-once-ready-was-observed] readySeen
+  at call(List).after set lastList := $result0
+  at call(List).after set listOK := (= $result1 vnil)
+  at call(OnInitialize) assert [initialize-is-the-first-callback-and-happens-once] (and (= ncb 0) (= ninit 0) (= lc 0))
+  at call(OnInitialize) assert [with-the-cache-content-read-at-readiness] (and listOK (= $0 lastList))
+  at call(OnInitialize) set ninit := 1
+  at call(OnInitialize) set ncb := (+ ncb 1)
+  at recv(Events) assume [events-are-non-nil-and-carry-one-of-the-three-types] (=> $ok (and (not (= $val vnil)) (or (= (evt-type $val) |str!create|) (= (evt-type $val) |str!update|) (= (evt-type $val) |str!delete|))))
+  at recv(Events) set lastEv := $val
+  at recv(Events) set evPending := $ok
+  at call(OnCreate) assert [one-callback-matching-the-event] (and (= ninit 1) (= lc 0) evPending (= (evt-type lastEv) |str!create|) (= $0 (evt-res lastEv)))
+  at call(OnCreate) set evPending := false
+  at call(OnCreate) set ncb := (+ ncb 1)
+  at call(OnUpdate) assert [one-callback-matching-the-event] (and (= ninit 1) (= lc 0) evPending (= (evt-type lastEv) |str!update|) (= $0 (evt-res lastEv)))
+  at call(OnUpdate) set evPending := false
+  at call(OnUpdate) set ncb := (+ ncb 1)
+  at call(OnDelete) assert [one-callback-matching-the-event] (and (= ninit 1) (= lc 0) evPending (= (evt-type lastEv) |str!delete|) (= $0 (evt-res lastEv)))
+  at call(OnDelete) set evPending := false
+  at call(OnDelete) set ncb := (+ ncb 1)
+  at call(ShutdownInitiated) assert [shutdown-initiated-once] (= lc 0)
+  at call(ShutdownInitiated) set lc := 1
+  at call(ShutdownCompleted) assert [done-closes-last-after-shutdown-was-initiated] (= lc 1)
+  at call(ShutdownCompleted) assert [no-callback-if-never-ready] (=> (= ninit 0) (= ncb 0))
+  loop 1 inv [initialized-once] (and (= ninit 1) (>= ncb 1) (= lc 0))
+  loop 1 inv [every-received-event-was-dispatched] (not evPending)
+@*/
